@@ -270,6 +270,18 @@ var c15pred = Register("C15", "C15.predicates", func(a c15PredArgs) *Violation {
 	if d.IsInf(1) != (isInf && !d.Signbit()) || d.IsInf(-1) != (isInf && d.Signbit()) {
 		return violf("%s: IsInf(+1)=%v IsInf(-1)=%v", a.V, d.IsInf(1), d.IsInf(-1))
 	}
+	// any positive / negative sign argument, not only +-1 (the documentation says sign > 0, sign < 0)
+	for _, sg := range []int{2, -2, math.MaxInt, math.MinInt, 1 << 32, -(1 << 32), 1 << 31, -(1 << 31), 1 << 16, int(int64(splitmix(a.V.Hi ^ a.V.Lo)))} {
+		want := isInf
+		if sg > 0 {
+			want = isInf && !d.Signbit()
+		} else if sg < 0 {
+			want = isInf && d.Signbit()
+		}
+		if d.IsInf(sg) != want {
+			return violf("%s: IsInf(%d) = %v, want %v", a.V, sg, d.IsInf(sg), want)
+		}
+	}
 	if n.Class != ref.Finite || n.IsZero() {
 		st.NT(hashWords(a.V.Hi, a.V.Lo), func() any { return map[string]any{"bits": a.V.String()} })
 	}
